@@ -30,6 +30,12 @@ theorem minmax_correct (min max : Nat) (insts : List (DNode × Nat)) (hc : max =
 example : (match minmaxCheck 1 2 [(.term 3 {} [] [97], 0), (.term 3 {} [] [98], 1), (.term 3 {} [] [99], 2)] with
     | .tooMany (_, idx) => idx == 2 | _ => false) = true := by decide
 
+/-- non-vacuity (audit): the theorem instantiated on its other branch, `max = 0` (no bound): one instance against `min-elements 2` is
+"too few"; three instances against `min-elements 1` stop the loop at the first one (min reached, no max) and are accepted -/
+example : minmaxCheck 2 0 [(.term 3 {} [] [97], 0)] = .tooFew ∧
+    minmaxCheck 1 0 [(.term 3 {} [] [97], 0), (.term 3 {} [] [98], 1), (.term 3 {} [] [99], 2)] = .ok :=
+  ⟨by rw [minmax_correct 2 0 _ (Or.inl rfl)]; rfl, by rw [minmax_correct 1 0 _ (Or.inl rfl)]; rfl⟩
+
 /-- The hypothesis of `minmax_correct` is needed: with `min > max + 1` (which `lys_compile` rejects) the loop stops at instance
 `max + 1` with `min` still open and reports "too few" although there are enough instances. -/
 theorem minmax_break_before_min :
@@ -60,11 +66,42 @@ theorem unique_hash_eq_pairwise (X : SchemaX) (lst : Nat) (hash : List Bytes →
     rw [uniqueHash_isSome]
     simp
 
+/-- audit witness: `list l { key k; unique "u w"; leaf k; leaf u; leaf w { default "d"; } }` (repaired variant of the code) -/
+def auSu : Schema := { modName := "exu", nodes := [
+  { depth := 0, kind := .list, name := "l", nkeys := 1 },
+  { depth := 1, kind := .leaf, name := "k", iskey := true },
+  { depth := 1, kind := .leaf, name := "u" },
+  { depth := 1, kind := .leaf, name := "w", dflts := [[100]] }] }
+def auXu : SchemaX := { SchemaX.ofSchema auSu [(0, [2, 3])] with q := Quirks.fixed }
+def auE (k : UInt8) (rest : List DNode) : DNode := .inner 0 {} [] (.term 1 {} [] [k] :: rest)
+/-- three entries (hash-table path): the first (`u = x`, `w = d` explicit) and the third (`u = x`, `w` absent: default in use) agree;
+the second has no `u` (incomplete tuple, skipped) -/
+def auI3 : List (DNode × Nat) := [(auE 49 [.term 2 {} [] [120], .term 3 {} [] [100]], 0), (auE 50 [.term 3 {} [] [100]], 1),
+  (auE 51 [.term 2 {} [] [120]], 2)]
+/-- four entries, no two agree on a complete tuple (two of them incomplete) -/
+def auI4 : List (DNode × Nat) := [(auE 49 [.term 2 {} [] [120], .term 3 {} [] [100]], 0), (auE 50 [.term 3 {} [] [100]], 1),
+  (auE 51 [.term 2 {} [] [121]], 2), (auE 52 [.term 3 {} [] [100]], 3)]
+
+/-- non-vacuity (audit): a keyed list with a two-leaf `unique` (one leaf with a default), three and four entries — both sides of the
+equation are `true` on the first and `false` on the second instance list, under an all-colliding and under a separating hash function -/
+example : (uniqueCheck auXu 0 (fun _ => 0) [[2, 3]] auI3).isSome = true ∧
+    (uniqueCheck auXu 0 (fun t => (t.headD []).length) [[2, 3]] auI3).isSome = true ∧
+    existsPair (uniqViolPair auXu 0 [[2, 3]]) auI3 = true ∧
+    (uniqueCheck auXu 0 (fun _ => 0) [[2, 3]] auI4).isSome = false ∧
+    existsPair (uniqViolPair auXu 0 [[2, 3]]) auI4 = false ∧
+    -- exactly two entries: the direct comparison
+    (uniqueCheck auXu 0 (fun _ => 0) [[2, 3]] [(auE 49 [.term 2 {} [] [120]], 0), (auE 50 [.term 2 {} [] [120]], 1)]).isSome = true := by
+  decide
+
 /-- the verdict does not depend on the hash function (in particular not on collisions) -/
 theorem unique_hash_independent (X : SchemaX) (lst : Nat) (h1 h2 : List Bytes → Nat) (uniques : List (List Nat))
     (insts : List (DNode × Nat)) :
     (uniqueCheck X lst h1 uniques insts).isSome = (uniqueCheck X lst h2 uniques insts).isSome := by
   rw [unique_hash_eq_pairwise, unique_hash_eq_pairwise]
+
+/-- non-vacuity (audit): the theorem instantiated at `auI3` with a constant hash and with the sum of the value lengths; both sides are `true` -/
+example : (uniqueCheck auXu 0 (fun t => (t.map List.length).sum) [[2, 3]] auI3).isSome = true :=
+  unique_hash_independent auXu 0 (fun _ => 0) (fun t => (t.map List.length).sum) [[2, 3]] auI3 ▸ (by decide)
 
 /-- **`lyd_validate_duplicates`: the `children_ht` branch = the linear scan**, for every hash function under which equal instances
 collide and every order of the collision chain (which holds the node itself and its siblings with the same hash). -/
@@ -74,12 +111,60 @@ theorem dup_hash_eq_scan (S : Schema) (h : DNode → Nat) (others chain : List D
     dupHash S chain node = dupScan S others node :=
   dupHash_eq_dupScan S h others chain node hperm hcong
 
+/-- audit witness: `list l { key k; leaf k; leaf m; } leaf-list ll;` -/
+def auSd : Schema := { modName := "exd", nodes := [
+  { depth := 0, kind := .list, name := "l", nkeys := 1 },
+  { depth := 1, kind := .leaf, name := "k", iskey := true },
+  { depth := 1, kind := .leaf, name := "m" },
+  { depth := 0, kind := .leaflist, name := "ll" }] }
+/-- a hash in the manner of `lyd_hash`: schema node, length of the first key / of the value -/
+def auH (n : DNode) : Nat := n.sid + (n.kids.headD n).val.length + n.val.length
+def auL (k : Bytes) (m : UInt8) : DNode := .inner 0 { new := true } [] [.term 1 { new := true } [] k, .term 2 { new := true } [] [m]]
+
+/-- non-vacuity (audit): list entry `l[k='1']` among four siblings — `l[k='2']` (same hash), `l[k='10']` and `ll = 1` (other hashes),
+a second `l[k='1']` with another `m` (the duplicate) —, collision chain in table order `[l[k='2'], twin, node]`: both hypotheses hold, the
+scan finds the duplicate, hence so does the hash branch; for `l[k='2']` (same chain) neither does -/
+example : dupScan auSd [auL [50] 120, auL [49, 48] 120, .term 3 { new := true } [] [49], auL [49] 121] (auL [49] 120) = true ∧
+    dupHash auSd [auL [50] 120, auL [49] 121, auL [49] 120] (auL [49] 120) =
+      dupScan auSd [auL [50] 120, auL [49, 48] 120, .term 3 { new := true } [] [49], auL [49] 121] (auL [49] 120) ∧
+    dupHash auSd [auL [50] 120, auL [49] 121, auL [49] 120] (auL [50] 120) = false :=
+  ⟨by decide,
+   dup_hash_eq_scan auSd auH _ _ _
+     (((List.Perm.swap (auL [49] 120) (auL [49] 121) []).cons (auL [50] 120)).trans (List.Perm.swap (auL [49] 120) (auL [50] 120) [auL [49] 121]))
+     (by decide),
+   by decide⟩
+
 /-- **`lyd_validate_cases`**: the scan over the cases of a choice fails iff two cases have only old data or two cases have new data. -/
 theorem cases_correct (sibs : List DNode) (cases : List STree) :
     scanCases sibs cases none none = none ↔
       2 ≤ (cases.filter (fun c => caseFound sibs c == 1)).length ∨ 2 ≤ (cases.filter (fun c => caseFound sibs c == 2)).length := by
   have := scanCases_none_iff sibs cases none none
   simpa [optCount] using this
+
+/-- audit witness: `choice ch { case a { leaf x; leaf y; } case b { container z { presence; } } case c { leaf-list w; } }` -/
+def auSc : Schema := { modName := "exc", nodes := [
+  { depth := 0, kind := .choice, name := "ch" },
+  { depth := 1, kind := .case, name := "a" },
+  { depth := 2, kind := .leaf, name := "x" },
+  { depth := 2, kind := .leaf, name := "y" },
+  { depth := 1, kind := .case, name := "b" },
+  { depth := 2, kind := .container, name := "z", presence := true },
+  { depth := 1, kind := .case, name := "c" },
+  { depth := 2, kind := .leaflist, name := "w" }] }
+/-- the three cases of `ch`, as `SchemaX.ofSchema` builds them -/
+def auCases : List STree := ((SchemaX.ofSchema auSc).top.headD default).kids
+def auN : Flags := { new := true }
+
+/-- non-vacuity (audit): three cases with data ids `[x, y]`, `[z]`, `[w]`; old `x` + new `w`: the scan succeeds (auto-delete of the old
+case); new `x`, `y` + new `w`: two new cases, fails; old `y` + old `z`: two old cases, fails — the right-hand side of the theorem
+holds in the last two -/
+example : auCases.map (·.dataSids) = [[2, 3], [5], [7]] ∧
+    (scanCases [.term 2 {} [] [49], .term 7 auN [] [50]] auCases none none).isSome = true ∧
+    scanCases [.term 2 auN [] [49], .term 3 auN [] [49], .term 7 auN [] [50]] auCases none none = none ∧
+    scanCases [.term 3 {} [] [49], .inner 5 {} [] []] auCases none none = none ∧
+    2 ≤ (auCases.filter (fun c => caseFound [.term 3 {} [] [49], .inner 5 {} [] []] c == 1)).length :=
+  ⟨by decide, by decide, by decide, by decide,
+   ((cases_correct [.term 3 {} [] [49], .inner 5 {} [] []] auCases).1 (by decide)).resolve_right (by decide)⟩
 
 /-- for a freshly built or parsed sibling list (every node `LYD_NEW`): the scan fails iff data of two cases exist (RFC 7950 §7.9) -/
 theorem cases_fresh (sibs : List DNode) (cases : List STree) (hnew : ∀ n ∈ sibs, n.flags.new = true) :
@@ -118,6 +203,13 @@ theorem cases_fresh (sibs : List DNode) (cases : List STree) (hnew : ∀ n ∈ s
     split <;> simp_all
   rw [h1, h2]
   simp
+
+/-- non-vacuity (audit): fresh siblings with `x`, `y` (one case) and `w` (another case): the theorem gives "data of two cases"; with `x`, `y`
+only, its right-to-left direction is refuted by the scan succeeding -/
+example : 2 ≤ (auCases.filter (fun c => hasData [.term 2 auN [] [49], .term 3 auN [] [49], .term 7 auN [] [50]] c.dataSids)).length ∧
+    ¬ 2 ≤ (auCases.filter (fun c => hasData [.term 2 auN [] [49], .term 3 auN [] [49]] c.dataSids)).length :=
+  ⟨(cases_fresh _ auCases (by decide)).1 (by decide),
+   fun h => absurd ((cases_fresh [.term 2 auN [] [49], .term 3 auN [] [49]] auCases (by decide)).2 h) (by decide)⟩
 
 /-! ## constraint families: the model's check = the constraint of the specification, on one sibling list
 
@@ -162,6 +254,31 @@ example :
     (dupPair S (.inner 0 {} [] [.term 1 {} [] [49]]) (.inner 0 {} [] [.term 1 {} [] [49]]),
      dupPair S (.inner 0 {} [] [.term 1 {} [] [49]]) (.inner 0 {} [] [.term 1 {} [] [50]])) = (true, false) := by decide
 
+/-- audit witness: `list l { key k; leaf k; leaf m; } leaf-list ll { type int8; min-elements 1; max-elements 2; } leaf s { config false; }
+leaf-list sl { config false; }` -/
+def auSf : Schema := { modName := "exf", nodes := [
+  { depth := 0, kind := .list, name := "l", nkeys := 1 },
+  { depth := 1, kind := .leaf, name := "k", iskey := true },
+  { depth := 1, kind := .leaf, name := "m" },
+  { depth := 0, kind := .leaflist, name := "ll", ty := .int8, min := 1, max := 2 },
+  { depth := 0, kind := .leaf, name := "s", config := false },
+  { depth := 0, kind := .leaflist, name := "sl", config := false, userord := true }] }
+def auXf : SchemaX := SchemaX.ofSchema auSf
+def auF (k m : UInt8) : DNode := .inner 0 auN [] [.term 1 auN [] [k], .term 2 auN [] [m]]
+
+/-- non-vacuity (audit): `dup_family_loop` / `dup_family` instantiated on fresh sibling lists with two list entries, leaf-list values, a
+state leaf and a repeated state leaf-list value: the first list has no forbidden pair (the repeated `sl` is allowed) and the loop logs
+nothing; a third entry with the key of the first, a repeated `ll` value, a second `s` each make the loop log an error -/
+example : NoPair auXf.base [auF 49 120, auF 50 120, .term 3 auN [] [49], .term 3 auN [] [50], .term 4 auN [] [121],
+      .term 5 auN [] [122], .term 5 auN [] [122]] ∧
+    ¬ NoPair auXf.base [auF 49 120, auF 50 120, auF 49 121, .term 3 auN [] [49]] ∧
+    ¬ NoPair auXf.base [auF 49 120, .term 3 auN [] [49], .term 3 auN [] [49]] ∧
+    ¬ NoPair auXf.base [auF 49 120, .term 4 auN [] [121], .term 4 auN [] [122]] :=
+  ⟨(dup_family_loop auXf {} {} rfl _ (by decide) (by decide)).1 (by decide),
+   fun h => absurd ((dup_family_loop auXf {} {} rfl _ (by decide) (by decide)).2 h) (by decide),
+   fun h => absurd ((dup_family auXf {} {} rfl _ (by decide)).2 h) (by decide),
+   fun h => absurd ((dup_family auXf {} {} rfl _ (by decide)).2 h) (by decide)⟩
+
 /-- **min/max family**: for a list or leaf-list `k` of a compiled schema (`min-elements` ≤ `max-elements`, below 2³²), without
 `LYD_VALIDATE_OPERATIONAL`, `lyd_validate_minmax` as `lyd_validate_siblings_schema_r` calls it (UINT32_MAX for "unbounded") logs no
 error iff the number of instances is neither below `min-elements` nor above `max-elements`. -/
@@ -171,6 +288,18 @@ theorem minmax_family (S : Schema) (o : VOpts) (cx : Cx) (sibs : List DNode) (k 
     (minmaxOut S o cx sibs k).errs = [] ↔
       ¬ ((instsOf sibs k.sid).length < k.info.min) ∧ ¬ (k.info.max ≠ 0 ∧ k.info.max < (instsOf sibs k.sid).length) :=
   minmaxOut_nil_iff S o cx sibs k hop hmm hmin hlen
+
+/-- the schema node of `ll` (`min-elements 1; max-elements 2`) of the audit witness -/
+def auKll : STree := .mk 3 { depth := 0, kind := .leaflist, name := "ll", ty := .int8, min := 1, max := 2 } []
+
+/-- non-vacuity (audit): the theorem instantiated at `ll` among other siblings: two instances — no error; none — an error (too few); three —
+an error (too many) -/
+example : (minmaxOut auSf {} {} [auF 49 120, .term 3 auN [] [49], .term 3 auN [] [50]] auKll).errs = [] ∧
+    (minmaxOut auSf {} {} [auF 49 120] auKll).errs ≠ [] ∧
+    (minmaxOut auSf {} {} [auF 49 120, .term 3 auN [] [49], .term 3 auN [] [50], .term 3 auN [] [51]] auKll).errs ≠ [] :=
+  ⟨(minmax_family auSf {} {} _ auKll rfl (by decide) (by decide) (by decide)).2 (by decide),
+   fun h => absurd ((minmax_family auSf {} {} _ auKll rfl (by decide) (by decide) (by decide)).1 h) (by decide),
+   fun h => absurd ((minmax_family auSf {} {} _ auKll rfl (by decide) (by decide) (by decide)).1 h) (by decide)⟩
 
 /-- **state family**: the node checks of `lyd_validate_final_r` log no error iff, under `LYD_VALIDATE_NO_STATE`, no sibling is state data -/
 theorem state_family (S : Schema) (o : VOpts) (cx : Cx) : ∀ (rest before : List DNode),
@@ -190,9 +319,27 @@ theorem state_family (S : Schema) (o : VOpts) (cx : Cx) : ∀ (rest before : Lis
     · have : o.noState = false := by simpa using hns
       simp [this]
 
+/-- non-vacuity (audit): under `LYD_VALIDATE_NO_STATE` configuration siblings log nothing, the state leaf `s` does; without the option it
+does not -/
+example : (nodeChecks auSf { noState := true } {} [] [auF 49 120, .term 3 auN [] [49]]).errs = [] ∧
+    (nodeChecks auSf { noState := true } {} [] [auF 49 120, .term 3 auN [] [49], .term 4 auN [] [121]]).errs ≠ [] ∧
+    (nodeChecks auSf {} {} [] [auF 49 120, .term 3 auN [] [49], .term 4 auN [] [121]]).errs = [] :=
+  ⟨(state_family auSf { noState := true } {} _ []).2 (by decide),
+   fun h => absurd ((state_family auSf { noState := true } {} _ []).1 h rfl) (by decide),
+   (state_family auSf {} {} _ []).2 (by decide)⟩
+
 
 /-! ## the whole of `lyd_validate` against the specification -/
 
+-- AUDIT: docstring / hypothesis mismatch (no vacuity of the advertised main class).  The docstring's clause "without a mandatory node
+-- below a non-presence container" suggests that non-presence containers are admitted as long as nothing mandatory is below them.
+-- They are not: `PlainSane` (through `plainNode`) excludes EVERY non-presence container, so the theorem (and `validate_error_tag`,
+-- same hypotheses) says nothing about any schema that has one — `validate_ok_iff_valid_vacuous_for_np_containers` below.  This is
+-- consistent with the OPEN note above (np containers are listed there as not covered) and with the first clause of the docstring
+-- ("containers with presence"); only the quoted clause is misleading.  Minimal repair: reword the docstring to "no non-presence
+-- container at all"; extending the statement to np containers is the OPEN item, not a repair of this one.  Everything else the
+-- docstring advertises is witnessed below (presence container, keyed lists nested in a list, leaf-lists with min/max, mandatory leaf,
+-- state data with and without `LYD_VALIDATE_NO_STATE`, values outside the type).
 /-- **`validate_ok_iff_valid`, plain schemas**: for a schema of containers with presence, lists, leaf-lists and leaves without
 `default`, `choice`, `unique` and without a mandatory node below a non-presence container (`PlainSane`: no implicit data and no case
 logic is involved; `min-elements` ≤ `max-elements` < 2³²) and every instance tree of it as the builders or the parsers leave it
@@ -252,6 +399,59 @@ example : KidsLookupOk Xp ∧ PlainSane Xp ∧ InfoOk Xp ∧ Xp.uniques = [] ∧
   refine ⟨lookupOk_of_B Xp (by decide), plainSane_of_B Xp (by decide), infoOk_of_B Xp (by decide), by decide, by decide, by decide,
     by decide, by decide, by decide, by decide, by decide, by decide, by decide, by decide⟩
 
+/-- AUDIT: `PlainSane` admits no non-presence container anywhere in the schema, so `validate_ok_iff_valid` and `validate_error_tag` are
+silent about every schema with one (the docstring's "without a mandatory node below a non-presence container" is an empty condition). -/
+theorem validate_ok_iff_valid_vacuous_for_np_containers (X : SchemaX) (hps : PlainSane X) (k : STree) (hk : BelowL k X.top) :
+    k.isNpCont = false := by
+  have h := (hps k hk).1
+  unfold plainNode at h
+  unfold STree.isNpCont
+  simp only [Bool.and_eq_true, bne_iff_ne, ne_eq, Bool.not_eq_eq_eq_not, Bool.not_true] at h
+  exact h.1.1.1.1.2
+
+/-- audit witness, three levels deep: `container c { presence; list o { key k; min-elements 1; leaf k; list i { key j; max-elements 2;
+leaf j { type uint8; } leaf m { mandatory true; } leaf-list w { type int8; } } } leaf-list sl { config false; } }` -/
+def auSn : Schema := { modName := "exn", nodes := [
+  { depth := 0, kind := .container, name := "c", presence := true },
+  { depth := 1, kind := .list, name := "o", nkeys := 1, min := 1 },
+  { depth := 2, kind := .leaf, name := "k", iskey := true },
+  { depth := 2, kind := .list, name := "i", nkeys := 1, max := 2 },
+  { depth := 3, kind := .leaf, name := "j", iskey := true, ty := .uint8 },
+  { depth := 3, kind := .leaf, name := "m", mandatory := true },
+  { depth := 3, kind := .leaflist, name := "w", ty := .int8 },
+  { depth := 1, kind := .leaflist, name := "sl", config := false, userord := true }] }
+def auXn : SchemaX := SchemaX.ofSchema auSn
+def auI (j : UInt8) (rest : List DNode) : DNode := .inner 3 fl [] (.term 4 fl [] [j] :: rest)
+def auO (k : UInt8) (rest : List DNode) : DNode := .inner 1 fl [] (.term 2 fl [] [k] :: rest)
+/-- valid: `o[k=a]` with `i[j=1] { m, w = 1, w = 2 }` and `i[j=2] { m }`, an empty `o[k=b]`, the state value `sl = z` twice -/
+def auT1 : List DNode := [.inner 0 fl [] [
+  auO 97 [auI 49 [.term 5 fl [] [120], .term 6 fl [] [49], .term 6 fl [] [50]], auI 50 [.term 5 fl [] [120]]],
+  auO 98 [], .term 7 fl [] [122], .term 7 fl [] [122]]]
+/-- the value `w = 2` twice, three levels down -/
+def auT2 : List DNode := [.inner 0 fl [] [
+  auO 97 [auI 49 [.term 5 fl [] [120], .term 6 fl [] [50], .term 6 fl [] [50]], auI 50 [.term 5 fl [] [120]]], auO 98 []]]
+/-- `w = 200` is no int8 (the instance cannot be built), and `i[j=2]` lacks `m` -/
+def auT3 : List DNode := [.inner 0 fl [] [auO 97 [auI 49 [.term 5 fl [] [120], .term 6 fl [] [50, 48, 48]], auI 50 []]]]
+
+/-- non-vacuity (audit): the theorem itself instantiated on a list nested in a list nested in a presence container, with leaf-lists,
+a mandatory leaf, min/max and state data: all hypotheses hold for the schema and the three trees; it yields acceptance of the valid
+tree, and from the model's refusal (duplicate `w` at depth 3; unbuildable value; state data under `LYD_VALIDATE_NO_STATE`) that the
+specification is violated -/
+example : (buildL auXn.base auT1 = none ∧ (validate auXn {} auT1).errs = []) ∧
+    ¬ Valid auXn {} auT2 ∧ ¬ Valid auXn {} auT3 ∧ ¬ Valid auXn { noState := true } auT1 :=
+  have H : ∀ (t : List DNode) (o : VOpts), o.operational = false →
+      (placedL auXn auXn.top t && shapedL auXn auXn.top t && isFreshL t && lenOkL t &&
+        decide (sheightL auXn.top ≤ walkFuel auXn t) && decide (t.length ≤ uint32Max)) = true →
+      ((buildL auXn.base t = none ∧ (validate auXn o t).errs = []) ↔ Valid auXn o t) := fun t o hop h => by
+    simp only [Bool.and_eq_true, decide_eq_true_eq] at h
+    obtain ⟨⟨⟨⟨⟨h1, h2⟩, h3⟩, h4⟩, h5⟩, h6⟩ := h
+    exact validate_ok_iff_valid auXn o hop rfl (lookupOk_of_B _ (by decide)) (plainSane_of_B _ (by decide))
+      (infoOk_of_B _ (by decide)) t h1 h2 h5 h3 h4 h6
+  ⟨(H auT1 {} rfl (by decide)).2 (by decide),
+   fun h => absurd ((H auT2 {} rfl (by decide)).2 h).2 (by decide),
+   fun h => absurd ((H auT3 {} rfl (by decide)).2 h).1 (by decide),
+   fun h => absurd ((H auT1 { noState := true } rfl (by decide)).2 h).2 (by decide)⟩
+
 
 /-- **`validate_error_tag`, plain schemas** (same class and hypotheses as `validate_ok_iff_valid`): every error `lyd_validate`
 logs — the first one, which is the verdict without `LYD_VALIDATE_MULTI_ERROR`, and every further one with it — is of a constraint
@@ -302,5 +502,12 @@ example : ((validate Xp {} tBad).errs.all fun e => (violations Xp {} tBad).conta
     ((validate Xp { noState := true } tBad).errs.map (·.kind)) = [.dup, .dup, .unexpState, .noMin, .noMand] ∧
     ((validate Xp { noState := true } tBad).errs.all fun e => (violations Xp { noState := true } tBad).contains e.kind) = true := by
   refine ⟨by decide, by decide, by decide⟩
+
+/-- non-vacuity (audit): the theorem itself instantiated at the three-level witness `auT2` (hypotheses discharged by evaluation): the
+model logs errors there (the duplicate `w` values at depth 3), and each of them is of a family the specification lists -/
+example : (validate auXn {} auT2).errs ≠ [] ∧ ∀ e ∈ (validate auXn {} auT2).errs, e.kind ∈ violations auXn {} auT2 :=
+  ⟨by decide,
+   validate_error_tag auXn {} rfl rfl (lookupOk_of_B _ (by decide)) (plainSane_of_B _ (by decide)) (infoOk_of_B _ (by decide)) auT2
+     (by decide) (by decide) (by decide) (by decide) (by decide) (by decide)⟩
 
 end LyModel.Props.C02
